@@ -57,6 +57,7 @@ type CaseStats struct {
 	Steps           int64
 	AssertsProved   int
 	AssertsConcrete int
+	RangeDecided    int
 	AssertQueries   int
 	Inconclusive    []string
 	Covers          map[string]int
@@ -86,6 +87,7 @@ func (in *Interp) addPC(c *Term) {
 		return
 	}
 	in.pc = append(in.pc, c)
+	in.ctxHarvest(c, false)
 	// filter the model cache
 	k := 0
 	for _, m := range in.models {
@@ -150,6 +152,11 @@ func (in *Interp) branch(c *Term) bool {
 		return d.val != 0
 	}
 	in.cs.BranchPoints++
+	if v, ok := in.decideByRange(c); ok {
+		in.cs.RangeDecided++
+		in.trace = append(in.trace, Decision{val: b2u(v), forced: true})
+		return v
+	}
 	nc := in.tb.Not(c)
 	tf, tm := in.feasible(c)
 	ff, fm := in.feasible(nc)
@@ -551,4 +558,69 @@ func flattenAnd(t *Term, max int) []*Term {
 		out = append(out, x)
 	}
 	return out
+}
+
+// decideByRange: a comparison atom whose outcome follows from the
+// path-sensitive interval analysis is a forced branch (no solver query).
+func (in *Interp) decideByRange(c *Term) (bool, bool) {
+	if len(in.ctxBounds) == 0 {
+		return false, false
+	}
+	neg := false
+	for c.op == OpBNot {
+		c = c.a
+		neg = !neg
+	}
+	var res, ok bool
+	switch c.op {
+	case OpULt, OpULe, OpEq, OpSLt, OpSLe:
+		if c.a.w == 0 {
+			return false, false
+		}
+		rx, ry := in.rangeCtx(c.a), in.rangeCtx(c.b)
+		op := c.op
+		half := uint64(1) << uint(c.a.w-1)
+		if op == OpSLt || op == OpSLe {
+			if rx.hi < half && ry.hi < half || rx.lo >= half && ry.lo >= half {
+				if op == OpSLt {
+					op = OpULt
+				} else {
+					op = OpULe
+				}
+			} else if rx.hi < half && ry.lo >= half { // x >= 0 > y
+				res, ok = false, true
+			} else if rx.lo >= half && ry.hi < half { // x < 0 <= y
+				res, ok = true, true
+			}
+		}
+		if !ok {
+			switch op {
+			case OpEq:
+				if rx.hi < ry.lo || ry.hi < rx.lo {
+					res, ok = false, true
+				} else if rx.lo == rx.hi && ry.lo == ry.hi && rx.lo == ry.lo {
+					res, ok = true, true
+				}
+			case OpULt:
+				if rx.hi < ry.lo {
+					res, ok = true, true
+				} else if rx.lo >= ry.hi {
+					res, ok = false, true
+				}
+			case OpULe:
+				if rx.hi <= ry.lo {
+					res, ok = true, true
+				} else if rx.lo > ry.hi {
+					res, ok = false, true
+				}
+			}
+		}
+	}
+	if !ok {
+		return false, false
+	}
+	if neg {
+		res = !res
+	}
+	return res, true
 }
